@@ -13,6 +13,14 @@
 //	       handshake happens (every k, both ends), then more calls.
 //	early  a plaintext application-data record injected in front of the j-th handshake record the
 //	       peer sends (every j, both ends).
+//	dial   the public Dialer.DialContext over loopback TCP against a peer that accepts the connection
+//	       and stalls in the handshake (never reads / reads the ClientHello / then answers with part
+//	       of a handshake record), for a net.Dialer without bound, with a 30 s Timeout, a 30 s
+//	       Deadline, both, and a caller whose context is cancelled 50 ms after the peer began to stall / has a
+//	       300 ms deadline / was cancelled before the call; and the converse: a 200 ms Timeout /
+//	       Deadline of the net.Dialer and a caller that never cancels. Observed: the class of the
+//	       error and whether the call returned within 2 s of the moment its context ended
+//	       (`when=prompt`); otherwise `res=blocked when=late` and the driver moves on.
 //
 // One concurrent situation is part of the api histories, because Close is documented to be
 // callable in it ("this Close is really just being used to break the Write"): a Write on another
@@ -32,6 +40,7 @@ import (
 	"context"
 	"errors"
 	"fmt"
+	"io"
 	"net"
 	"strconv"
 	"strings"
@@ -973,6 +982,199 @@ func phaseEarly(o hx.Opts) {
 	}
 }
 
+// ---------------------------------------------------------------------------------------- dial
+
+const (
+	dialLong   = 30 * time.Second       // a bound of the net.Dialer that must not matter
+	dialShort  = 200 * time.Millisecond // a bound of the net.Dialer that ends the call
+	dialCancel = 50 * time.Millisecond  // the caller cancels this long after the peer began to stall
+	dialCtxDl  = 300 * time.Millisecond // the deadline of the caller's context
+	dialBound  = 2 * time.Second        // "prompt": returned within this of the context ending
+)
+
+func dialErrClass(err error) string {
+	var ne net.Error
+	switch {
+	case err == nil:
+		return "ok"
+	case errors.Is(err, context.Canceled):
+		return "ctx"
+	case errors.Is(err, context.DeadlineExceeded):
+		return "ctxdl"
+	case errors.As(err, &ne) && ne.Timeout():
+		return "timeout"
+	}
+	return errEnum(err)
+}
+
+// stallPeer accepts one connection on ln and stalls at the given point of the handshake (stalled
+// is closed when it is there); it keeps the connection open until stop is closed.
+func stallPeer(ln net.Listener, stall string, stalled, stop chan struct{}) {
+	c, err := ln.Accept()
+	if err != nil {
+		close(stalled)
+		return
+	}
+	defer c.Close()
+	if stall == "hello" || stall == "partial" {
+		// the ClientHello record
+		hdr := make([]byte, 5)
+		c.SetReadDeadline(time.Now().Add(5 * time.Second))
+		if _, err := io.ReadFull(c, hdr); err == nil {
+			io.ReadFull(c, make([]byte, int(hdr[3])<<8|int(hdr[4])))
+		}
+	}
+	if stall == "partial" {
+		// the header of an 80-byte handshake record and the first bytes of a ServerHello
+		c.Write([]byte{22, 1, 1, 0, 80, 2, 0, 0, 76, 1, 1})
+	}
+	close(stalled)
+	<-stop
+}
+
+// dialOnce runs one scenario. The subject is a context that ends while the HANDSHAKE waits: when
+// the call came back before the peer had reached its stalling point although the caller's context
+// was not cancelled beforehand (a loaded machine: the context ended while net.Dialer was still
+// connecting, whose timeout errors are the net package's), the scenario is run again.
+func dialOnce(nd, stall, caller string) string {
+	cfg := pair.TClient() // (the first call makes the certificates: not inside the timed part)
+	r := ""
+	for try := 0; try < 4; try++ {
+		var reached bool
+		r, reached = dialTry(cfg, nd, stall, caller)
+		if reached || caller == "pre" {
+			break
+		}
+	}
+	return r
+}
+
+func dialTry(cfg *tlcp.Config, nd, stall, caller string) (string, bool) {
+	ln, err := net.Listen("tcp", "127.0.0.1:0")
+	if err != nil {
+		return "res=nolisten when=prompt", true
+	}
+	stalled, stop := make(chan struct{}), make(chan struct{})
+	defer close(stop)
+	defer ln.Close()
+	go stallPeer(ln, stall, stalled, stop)
+
+	d := &net.Dialer{}
+	ended := make(chan struct{}) // closed when the context of the call has ended
+	var once sync.Once
+	end := func() { once.Do(func() { close(ended) }) }
+	switch nd {
+	case "to":
+		d.Timeout = dialLong
+	case "dl":
+		d.Deadline = time.Now().Add(dialLong)
+	case "both":
+		d.Timeout = dialLong
+		d.Deadline = time.Now().Add(dialLong + time.Second)
+	case "shortto":
+		d.Timeout = dialShort
+		time.AfterFunc(dialShort, end)
+	case "shortdl":
+		d.Deadline = time.Now().Add(dialShort)
+		time.AfterFunc(dialShort, end)
+	}
+	ctx, cancel := context.Background(), context.CancelFunc(func() {})
+	switch caller {
+	case "cancel":
+		// while the handshake waits for the stalled peer
+		ctx, cancel = context.WithCancel(ctx)
+		go func() {
+			select {
+			case <-stalled:
+			case <-time.After(5 * time.Second):
+			}
+			time.Sleep(dialCancel)
+			cancel()
+			end()
+		}()
+	case "pre":
+		ctx, cancel = context.WithCancel(ctx)
+		cancel()
+		end()
+	case "deadline":
+		ctx, cancel = context.WithTimeout(ctx, dialCtxDl)
+		time.AfterFunc(dialCtxDl, end)
+	}
+	defer cancel()
+	dialer := &tlcp.Dialer{NetDialer: d, Config: cfg}
+	isStalled := func() bool {
+		select {
+		case <-stalled:
+			return true
+		case <-time.After(500 * time.Millisecond):
+			// (the peer may still be reading the ClientHello when the call is already back)
+			return false
+		}
+	}
+	res := make(chan string, 1)
+	go func() {
+		var c net.Conn
+		var err error
+		if p := hx.Guard(func() { c, err = dialer.DialContext(ctx, "tcp", ln.Addr().String()) }); p != "" {
+			res <- "panic." + p
+			return
+		}
+		if c != nil {
+			c.Close()
+		}
+		cl := dialErrClass(err)
+		if caller == "never" && cl == "ctxdl" {
+			// the dialer's own bound: the error of the derived context or of the connect, a timeout
+			cl = "timeout"
+		}
+		res <- cl
+	}()
+	select {
+	case r := <-res:
+		return "res=" + r + " when=prompt", isStalled()
+	case <-ended:
+	}
+	select {
+	case r := <-res:
+		return "res=" + r + " when=prompt", isStalled()
+	case <-time.After(dialBound):
+		// still inside DialContext: the deferred calls close the peer's end and the listener, the
+		// call is left to itself
+		return "res=blocked when=late", true
+	}
+}
+
+func dialDesc(nd, stall, caller string) string {
+	return fmt.Sprintf("dial nd=%s stall=%s caller=%s", nd, stall, caller)
+}
+
+func phaseDial(o hx.Opts) {
+	type cs struct{ nd, stall, caller string }
+	var cases []cs
+	for _, stall := range []string{"accept", "hello", "partial"} {
+		for _, nd := range []string{"none", "to", "dl", "both"} {
+			for _, caller := range []string{"cancel", "deadline"} {
+				cases = append(cases, cs{nd, stall, caller})
+			}
+		}
+		cases = append(cases, cs{"shortto", stall, "never"}, cs{"shortdl", stall, "never"})
+	}
+	for _, nd := range []string{"none", "to", "dl", "both"} {
+		cases = append(cases, cs{nd, "accept", "pre"})
+	}
+	// the cases do nothing but wait: run them side by side, report them in order
+	out := make([]string, len(cases))
+	var wg sync.WaitGroup
+	for i, c := range cases {
+		wg.Add(1)
+		go func() { defer wg.Done(); out[i] = dialOnce(c.nd, c.stall, c.caller) }()
+	}
+	wg.Wait()
+	for i, c := range cases {
+		tr.Line(dialDesc(c.nd, c.stall, c.caller), out[i])
+	}
+}
+
 func main() {
 	o := hx.ParseOpts()
 	tr = hx.NewTrace(o.Out)
@@ -994,6 +1196,11 @@ func main() {
 				emitCancel(side, hx.KVInt(c, "k"), ops)
 			case "early":
 				emitEarly(side, hx.KVInt(c, "j"), hx.KVInt(c, "len"))
+			case "dial":
+				nd, _ := hx.KV(c, "nd")
+				stall, _ := hx.KV(c, "stall")
+				caller, _ := hx.KV(c, "caller")
+				tr.Line(dialDesc(nd, stall, caller), dialOnce(nd, stall, caller))
 			}
 		}
 		return
@@ -1006,9 +1213,12 @@ func main() {
 		phaseCancel(o)
 	case "early":
 		phaseEarly(o)
+	case "dial":
+		phaseDial(o)
 	default:
 		phaseAPI(o, r)
 		phaseCancel(o)
 		phaseEarly(o)
+		phaseDial(o)
 	}
 }
